@@ -641,6 +641,12 @@ func main() {
 	out := &sink{r}
 
 	if r.Replay != "" {
+		var fr filesReplay
+		r.LoadReplay(&fr)
+		if fr.Part == "acra-keys-files" {
+			filesPart(r)
+			r.Finish()
+		}
 		var t Tuple
 		r.LoadReplay(&t)
 		opt.trace = true
@@ -701,6 +707,9 @@ func main() {
 		perPath[path] = map[string]int{"source_states": done}
 		fmt.Fprintf(os.Stderr, "path %s: %d source states done, t=%v\n", path, done, time.Since(t0).Round(time.Millisecond))
 	}
+	if *pathsFlag == "" {
+		filesPart(r)
+	}
 	r.Set("bounds", map[string]interface{}{"history_depth": depth, "full_byte_flip_depth": flipDepth, "flip_masks": fmt.Sprintf("%x", opt.masks), "sparse_flip_positions": opt.sparse, "slots": len(universe), "clients": 3, "cli_history_depth": cliDepth})
 	r.Set("source_states", srcStats)
 	r.Set("per_path", perPath)
@@ -709,7 +718,7 @@ func main() {
 		"v1 key stores use one key folder for private and public keys (kslab stores); the separate public folder variant of filesystem.KeyBackuper is not explored",
 		"source and target are driven sequentially; storage calls do not fail (C08)",
 		"acra-backup-cli: the binary is built by the check from the repository under test and run as a process; because a process costs ~0.6 CPU s on this VM only histories up to depth 1 (quick) / 2 (thorough) and 6 tamperings per tuple are run there",
-		"acra-keys export/import/migrate main() wiring (flag parsing, file permissions of the output files) is not driven; their library calls (KeyBackuper.Export/Import, MigrateV1toV2) are",
+		"acra-keys export/import/migrate main() wiring (flag parsing) is not driven; their library calls (KeyBackuper.Export/Import, MigrateV1toV2) and the file layer of export (keys.WriteExportedData: every sequence of <= 2 (thorough 3) exports of 4 bundle sizes to the same paths from 3 initial states) are",
 		"access keys are excluded from the secret scan by definition; the scan looks for every private / symmetric key value ever generated in the source (also destroyed ones) raw, hex and base64 at every alignment")
 	r.Finish()
 }
